@@ -34,7 +34,7 @@ def build_deck(r):
     if ca in ('trclinline', 'trclstar'):
         return {'surfs': [dict(card, n=1)], 'trs': [],
                 'cells': [{'n': 1, 'geom': ['S', -1, 0], 'hastrcl': True, 'trcl': body,
-                           'trclspell': 'star' if ca == 'trclstar' else '12'},
+                           'trclspell': 'star' if ca == 'trclstar' else sp},
                           {'n': 2, 'geom': ['C', 1]}]}
     cells = [{'n': 1, 'geom': ['S', -3001, 0]},
              {'n': 2, 'geom': ['S', 3001, 0] if ca == 'implicit' else ['C', 1]},
